@@ -107,7 +107,7 @@ Section Boolean.
   Definition drv (st : bool_st C) (em es : list Z) : list Z :=
     match bl_must st with Some _ => em | None => es end.
   Definition need (st : bool_st C) : bool :=
-    match bl_must st, bl_should st with Some _, Some s => negb (cmin s =? 0) | _, _ => false end.
+    match bl_must st, bl_should st with Some _, Some s => negb (cmin s <=? 0) | _, _ => false end.
   Definition okb (nd : bool) (es en : list Z) (x : Z) : bool :=
     negb (memb x en) && (if nd then memb x es else true).
   Definition pend (st : bool_st C) (em es en : list Z) : list Z :=
@@ -402,31 +402,31 @@ Section Boolean.
         split; [exact Hcur|]. split; [apply agree_dw; exact Aes|]. split; [discriminate|].
         rewrite (memb_via_dw c (sc :: ps) Aes). rewrite (OptOk_hd _ _ _ Ho').
         set (cond1 := match c' with Some sc' => sc' =? c | None => false end).
-        assert ((if negb (cmin ks =? 0) then cond1 else true)
-                = (if cond1 then true else if cmin k'' =? 0 then true else false)) as Hb.
-        { rewrite Hsm. destruct cond1, (cmin ks =? 0); reflexivity. }
+        assert ((if negb (cmin ks <=? 0) then cond1 else true)
+                = (if cond1 then true else if cmin k'' <=? 0 then true else false)) as Hb.
+        { rewrite Hsm. destruct cond1, (cmin ks <=? 0); reflexivity. }
         rewrite Hb.
         pose (G := fun (g : nat) (x : option C * res) => let '(s', c'0) := x in
                if (match c'0 with Some sc' => sc' =? c | None => false end) then Some (true, set_cs C st1 s' c'0)
-               else if (match bl_should (set_cs C st1 s' c'0) with Some k => cmin k =? 0 | None => false end)
+               else if (match bl_should (set_cs C st1 s' c'0) with Some k => cmin k <=? 0 | None => false end)
                     then Some (true, set_cs C st1 s' c'0) else Some (false, set_cs C st1 s' c'0)).
-        assert (Ev (fun g => G g (Some k'', c')) ((if cond1 then true else if cmin k'' =? 0 then true else false), set_cs C st1 (Some k'') c')) as Hev2.
-        { unfold G. cbn. fold cond1. destruct cond1; [apply Ev_const|]. destruct (cmin k'' =? 0); apply Ev_const. }
+        assert (Ev (fun g => G g (Some k'', c')) ((if cond1 then true else if cmin k'' <=? 0 then true else false), set_cs C st1 (Some k'') c')) as Hev2.
+        { unfold G. cbn. fold cond1. destruct cond1; [apply Ev_const|]. destruct (cmin k'' <=? 0); apply Ev_const. }
         eapply Ev_ext; [|exact (Ev_bind _ G _ _ Hev Hev2)].
         intro g. unfold G. cbn. destruct (opt_adv C (cadv g) (Some ks) (Some sc) c) as [[s' c'0]|]; reflexivity.
       + apply Z.eqb_eq in E2. subst sc. exists st1, (c :: ps). split; [apply (Hsame st1 eq_refl)|]. repeat (split; [apply (Hsame st1 eq_refl)|]).
         replace (memb c (c :: ps)) with true by (symmetry; apply memb_In; left; reflexivity).
-        destruct (match bl_must st1 with Some _ => negb (cmin ks =? 0) | None => false end); apply Ev_const.
+        destruct (match bl_must st1 with Some _ => negb (cmin ks <=? 0) | None => false end); apply Ev_const.
       + apply Z.ltb_ge in E1. apply Z.eqb_neq in E2.
         destruct (bl_must st1) as [km|] eqn:Emu; [|inversion Hc; lia].
         exists st1, (sc :: ps). split; [apply (Hsame st1 eq_refl)|]. repeat (split; [apply (Hsame st1 eq_refl)|]).
         rewrite (memb_head_ge_sym c sc ps Aes E1). rewrite (proj2 (Z.eqb_neq sc c) E2).
-        destruct (cmin ks =? 0); apply Ev_const.
+        destruct (cmin ks <=? 0); apply Ev_const.
     - destruct es as [|h ps]; cbn in Hhd; [|discriminate].
       exists st1, []. split; [apply (Hsame st1 eq_refl)|]. repeat (split; [apply (Hsame st1 eq_refl)|]).
       destruct (bl_should st1) as [ks|] eqn:Esh.
       + destruct (bl_must st1) as [km|] eqn:Emu; [|discriminate].
-        cbn. destruct (cmin ks =? 0); apply Ev_const.
+        cbn. destruct (cmin ks <=? 0); apply Ev_const.
       + destruct (bl_must st1); apply Ev_const.
   Qed.
 
